@@ -28,6 +28,44 @@ def main():
     ctx.quick = tier == 'quick'
     import drivers
     drivers.DRIVERS[prop](ctx)
+    # history insensitivity of the property's OWN calls: a sample of the stateless events of this trace is executed
+    # again after a storm of unrelated calls (failures included) in the same interpreter and judged again
+    if prop not in ('C14', 'C17'):
+        import rerun
+        cand = [e for e in ctx.rec.events if e['a'] in rerun.STATELESS and len(json.dumps(e)) < 60000]
+        ctx.rng.shuffle(cand)
+        # stratified: a few of every (action, label) kind, so that rare families are probed again too
+        per, sample = {}, []
+        cap = 6 if ctx.quick else 60
+        for e in cand:
+            k = (e['a'], e.get('label') or e.get('sigx') or '')
+            if per.get(k, 0) < cap:
+                per[k] = per.get(k, 0) + 1
+                sample.append(e)
+        sample = sample[:400 if ctx.quick else 4000]
+        if sample:
+            drivers.generic_storm(ctx)
+            ctx.rec.add('Toggle', [prop], **__import__('actions').toggle('false'))
+            if prop == 'C15':
+                ctx.rec.add('SetTZ', [prop], **__import__('actions').set_tz('UTC'))
+            if prop in ('C03', 'C04', 'C10', 'C12', 'C16', 'C01', 'C02'):
+                from abstraction import concrete, concrete_frame
+                vals, frs = [], []
+                for e in sample:
+                    try:
+                        if e['a'] == 'EncodeValue' and e['in']['t'] in ('table', 'array') and len(vals) < 40:
+                            vals.append(concrete(e['in']))
+                        elif e['a'] == 'RoundTrip' and len(frs) < 40:
+                            frs.append(concrete_frame(e['in']))
+                    except Exception:  # noqa
+                        pass
+                drivers.encode_mutate_encode(ctx, [prop], vals, frs)
+            for e in sample:
+                again, done = rerun._last(e)
+                if done:
+                    again = {k: v for k, v in again.items() if k not in ('id', 'a', 'p', 'session')}
+                    again['phase'] = 'after-storm'
+                    ctx.rec.add(e['a'], e['p'], **again)
     events = ctx.rec.events
     tlc.write_events(out, events)
     hashes = set()
